@@ -291,353 +291,461 @@ func runC20(c *Ctx) {
 }
 
 func (c *Ctx) fractionEncoder(info *types.Info) {
-	fd := c.funcDecl("type1", "", "appendNumber")
+	// appendNumber is evaluated on the SSA form with a symbolic value x.  The cells of the table:
+	// is x integral; at which denominator is the approximation the best so far; does the rounded
+	// numerator exceed the int32 range.  Helpers are evaluated in place.
+	fn := c.fn("type1", "appendNumber")
 	fname := "type1.appendNumber"
-	// integer path
-	okInt := false
-	if len(fd.Body.List) >= 2 {
-		if ifs, ok := fd.Body.List[1].(*ast.IfStmt); ok {
-			env := &symEnv{info: info, vars: map[string]string{}}
-			x := fd.Type.Params.List[1].Names[0]
-			env.bind(x, "x")
-			env.exec(fd.Body.List[:1])
-			t := ""
-			if be, ok := ifs.Cond.(*ast.BinaryExpr); ok && be.Op == token.EQL {
-				t = env.term(be.X) + "==" + env.term(be.Y)
-			}
-			if t == "f64(i32(x))==x" || t == "x==f64(i32(x))" {
-				if ret, ok := ifs.Body.List[len(ifs.Body.List)-1].(*ast.ReturnStmt); ok && len(ret.Results) == 2 {
-					if call, ok := ret.Results[0].(*ast.CallExpr); ok {
-						if id, ok := call.Fun.(*ast.Ident); ok && id.Name == "appendInt" && env.term(ret.Results[1]) == "x" {
-							okInt = true
-						}
+	div := c.constInt("type1", "t1div")
+	type result struct {
+		emitted []string
+		ret     string
+		qs      map[int64]bool
+		why     string
+	}
+	run := func(integral bool, bestAt int64, clamp int) result {
+		res := result{qs: map[int64]bool{}}
+		ev := &ssaEval{c: c, bind: map[ssa.Value]sv{}, mem: map[string]sv{}}
+		ev.noInline = func(f *ssa.Function) bool {
+			// the integer and command encoders are opaque: func([]byte, T) []byte
+			sig := f.Signature
+			return sig.Params().Len() == 2 && sig.Results().Len() == 1 && sig.Recv() == nil && sig.Params().At(0).Type().String() == "[]byte" && sig.Params().At(1).Type().String() != "float64"
+		}
+		qOf := func(s string) int64 {
+			// the denominator a symbol belongs to: R<q>, D<q> or a term containing them
+			for _, pre := range []string{"R", "D"} {
+				if i := strings.Index(s, pre); i >= 0 {
+					var q int64
+					if _, err := fmt.Sscanf(s[i+1:], "%d", &q); err == nil {
+						return q
 					}
 				}
 			}
+			return -1
+		}
+		curQ := int64(-1)
+		ev.call = func(call ssa.CallInstruction, args []sv) (sv, bool) {
+			if call == nil {
+				return sv{}, false
+			}
+			n := callName(call)
+			switch n {
+			case "math.Round":
+				q := int64(-1)
+				if len(args) == 1 && args[0].op == "*" {
+					for _, a := range args[0].args {
+						if a.k == svFloat {
+							q = int64(a.f)
+						}
+						if a.k == svInt {
+							q = a.i
+						}
+					}
+				}
+				res.qs[q] = true
+				curQ = q
+				return symV(fmt.Sprintf("R%d", q)), true
+			case "math.Abs":
+				return symV(fmt.Sprintf("D%d", curQ)), true
+			case "math.Inf":
+				return symV("inf"), true
+			}
+			if sc := call.Common().StaticCallee(); sc != nil && ev.noInline(sc) && c.inModule(sc) {
+				kind := "int"
+				if strings.HasSuffix(sc.Signature.Params().At(1).Type().String(), "t1op") {
+					kind = "op"
+				}
+				res.emitted = append(res.emitted, kind+"("+args[1].String()+")")
+				return symV("buf"), true
+			}
+			return sv{}, false
+		}
+		ev.oracle = func(op token.Token, x, y sv) (bool, bool) {
+			xs, ys := x.String(), y.String()
+			// is x integral: float64(int32(x)) == x
+			if xs == "x" && ys == "x" {
+				return integral == (op == token.EQL), true
+			}
+			// clamping: R<q> against the int32 limits
+			if strings.HasPrefix(xs, "R") && y.k == svFloat {
+				switch {
+				case op == token.GTR && y.f > 0:
+					return clamp > 0, true
+				case op == token.LSS && y.f < 0:
+					return clamp < 0, true
+				}
+			}
+			// is this denominator the best so far
+			if strings.HasPrefix(xs, "D") {
+				q := qOf(xs)
+				switch op {
+				case token.LEQ, token.LSS:
+					return q == bestAt, true
+				case token.GTR, token.GEQ:
+					return q != bestAt, true
+				}
+			}
+			if strings.HasPrefix(ys, "D") {
+				q := qOf(ys)
+				switch op {
+				case token.GEQ, token.GTR:
+					return q == bestAt, true
+				case token.LSS, token.LEQ:
+					return q != bestAt, true
+				}
+			}
+			return false, false
+		}
+		ret := ev.runFunc(fn, []sv{symV("buf0"), symV("x")})
+		res.why = ev.why
+		if len(ret) == 2 {
+			res.ret = ret[1].String()
+		}
+		return res
+	}
+	ri := run(true, 0, 0)
+	c.check(ri.why == "" && strings.Join(ri.emitted, " ") == "int(x)" && ri.ret == "x", "NUM-FRAC", fname, "integral values take the integer path and are returned unchanged", fn.Pos(), "emits the integer, returns x", fmt.Sprintf("for an integral value appendNumber emits %v and returns %s %s", ri.emitted, ri.ret, ri.why))
+	rs := run(false, 1, 0)
+	var missing []int64
+	for q := int64(1); q <= 107; q++ {
+		if !rs.qs[q] {
+			missing = append(missing, q)
 		}
 	}
-	c.check(okInt, "NUM-FRAC", fname, "integral values take the integer path and are returned unchanged", fd.Pos(), "if float64(int32(x)) == x { return appendInt(buf, int32(x)), x }", "appendNumber does not start by sending integral values through appendInt unchanged")
-	// denominator loop 1..107
-	var loop *ast.ForStmt
-	ast.Inspect(fd.Body, func(n ast.Node) bool {
-		if f, ok := n.(*ast.ForStmt); ok && loop == nil {
-			loop = f
+	extra := len(rs.qs) - (107 - len(missing))
+	c.check(rs.why == "" && len(missing) == 0 && extra == 0, "NUM-FRAC", fname, "denominators 1..107 are searched", fn.Pos(), fmt.Sprintf("%d denominators", len(rs.qs)), fmt.Sprintf("fraction encoder: denominators not tried: %v, others tried: %d %s (the denominator must fit the one-byte number format)", missing, extra, rs.why))
+	var bad []string
+	for _, q0 := range []int64{1, 50, 107} {
+		r := run(false, q0, 0)
+		wantE := fmt.Sprintf("int(R%d) int(%d) op(%d)", q0, q0, div)
+		wantR := fmt.Sprintf("/(R%d,%d)", q0, q0)
+		if strings.Join(r.emitted, " ") != wantE || r.ret != wantR {
+			bad = append(bad, fmt.Sprintf("with the best approximation at denominator %d it emits %v and returns %s, expected %s and %s %s", q0, r.emitted, r.ret, wantE, wantR, r.why))
 		}
-		return true
-	})
-	okLoop := false
-	why := "no denominator loop"
-	var qObj types.Object
-	if loop != nil {
-		why = ""
-		if as, ok := loop.Init.(*ast.AssignStmt); ok && len(as.Rhs) == 1 {
-			if k, ok := constIntOf(info, as.Rhs[0]); !ok || k != 1 {
-				why = "the search does not start at denominator 1"
-			}
-			if id, ok := as.Lhs[0].(*ast.Ident); ok {
-				qObj = info.ObjectOf(id)
-			}
-		} else {
-			why = "unexpected loop initialisation"
-		}
-		if be, ok := loop.Cond.(*ast.BinaryExpr); ok {
-			k, isC := constIntOf(info, be.Y)
-			last := int64(-1)
-			if isC && be.Op == token.LEQ {
-				last = k
-			} else if isC && be.Op == token.LSS {
-				last = k - 1
-			}
-			if last != 107 {
-				why = fmt.Sprintf("the largest denominator tried is %d, expected 107 (a one-byte number; error bound 1/(2·107))", last)
-			}
-		} else {
-			why = "unexpected loop condition"
-		}
-		if inc, ok := loop.Post.(*ast.IncDecStmt); !ok || inc.Tok != token.INC {
-			why = "the denominator does not advance by one"
-		}
-		okLoop = why == ""
 	}
-	c.check(okLoop, "NUM-FRAC", fname, "denominators 1..107 are searched", fd.Pos(), "for q := 1; q <= 107; q++", "fraction encoder: "+why)
-	// best p,q chosen together, numerator clamped to int32, emitted p q div, returned p/q
-	okEmit := false
-	whyE := ""
-	{
-		var calls []string
-		var ret *ast.ReturnStmt
-		for _, st := range fd.Body.List {
-			switch st := st.(type) {
-			case *ast.AssignStmt:
-				if len(st.Rhs) == 1 {
-					if call, ok := st.Rhs[0].(*ast.CallExpr); ok {
-						if id, ok := call.Fun.(*ast.Ident); ok && (id.Name == "appendInt" || id.Name == "appendOp") && len(call.Args) == 2 {
-							calls = append(calls, id.Name+"("+types.ExprString(call.Args[1])+")")
-						}
-					}
-				}
-			case *ast.ReturnStmt:
-				ret = st
-			}
-		}
-		var bestP, bestQ string
-		if loop != nil {
-			ast.Inspect(loop, func(n ast.Node) bool {
-				if ifs, ok := n.(*ast.IfStmt); ok {
-					var names []string
-					var srcs []string
-					for _, st := range ifs.Body.List {
-						if as, ok := st.(*ast.AssignStmt); ok && len(as.Lhs) == 1 {
-							names = append(names, types.ExprString(as.Lhs[0]))
-							srcs = append(srcs, types.ExprString(as.Rhs[0]))
-						}
-					}
-					if len(names) == 3 {
-						for i, s := range srcs {
-							if qObj != nil && s == qObj.Name() {
-								bestQ = names[i]
-							}
-							if s == "p" {
-								bestP = names[i]
-							}
-						}
-					}
-				}
-				return true
-			})
-		}
-		want := []string{"appendInt(" + bestP + ")", "appendInt(" + bestQ + ")", "appendOp(t1div)"}
-		if bestP == "" || bestQ == "" {
-			whyE = "numerator and denominator of the best approximation are not recorded together"
-		} else if strings.Join(calls, ",") != strings.Join(want, ",") {
-			whyE = "the emitted sequence is " + strings.Join(calls, ", ") + ", expected " + strings.Join(want, ", ")
-		} else if ret == nil || len(ret.Results) != 2 {
-			whyE = "unexpected return"
-		} else {
-			env := &symEnv{info: info, vars: map[string]string{}}
-			t := env.term(ret.Results[1])
-			if t != "div(f64(?"+bestP+"),f64(?"+bestQ+"))" {
-				whyE = "the returned value is " + t + ", expected the quotient of the emitted numerator and denominator"
-			}
-		}
-		okEmit = whyE == ""
-	}
-	c.check(okEmit, "NUM-FRAC", fname, "`p q div` is emitted and p/q of the same p,q is returned", fd.Pos(), "appendInt(bestP), appendInt(bestQ), appendOp(t1div); return float64(bestP)/float64(bestQ)", "fraction encoder: "+whyE)
-	// clamp to int32
-	clampHi, clampLo := false, false
-	ast.Inspect(fd.Body, func(n ast.Node) bool {
-		if be, ok := n.(*ast.BinaryExpr); ok {
-			if v, ok := constIntOf(info, be.Y); ok {
-				if v == (1<<31)-1 && be.Op == token.GTR {
-					clampHi = true
-				}
-				if v == -(1<<31) && be.Op == token.LSS {
-					clampLo = true
-				}
-			}
-		}
-		return true
-	})
-	c.check(clampHi && clampLo, "NUM-FRAC", fname, "numerator clamped to the int32 range before conversion", fd.Pos(), "pf > MaxInt32 / pf < MinInt32", "the numerator is converted to int32 without being clamped")
+	c.check(len(bad) == 0, "NUM-FRAC", fname, "`p q div` is emitted and p/q of the same p,q is returned", fn.Pos(), "best approximation at q = 1, 50, 107 evaluated", "fraction encoder: "+joinMax(bad, 2))
+	hi := run(false, 7, 1)
+	lo := run(false, 7, -1)
+	okClamp := len(hi.emitted) == 3 && hi.emitted[0] == "int(2147483647)" && len(lo.emitted) == 3 && lo.emitted[0] == "int(-2147483648)"
+	c.check(okClamp, "NUM-FRAC", fname, "numerator clamped to the int32 range before conversion", fn.Pos(), "±2^31 limits", fmt.Sprintf("the numerator is converted to int32 without being clamped: beyond the range it emits %v / %v", hi.emitted, lo.emitted))
 }
 
-// positionTracking: rule NUM-POS.
 func (c *Ctx) positionTracking(info *types.Info) {
-	fd := c.funcDecl("type1", "Glyph", "encodeCharString")
-	fname := "type1.(*Glyph).encodeCharString"
-	// the switch over cmd.Op
-	var sw *ast.SwitchStmt
-	ast.Inspect(fd.Body, func(n ast.Node) bool {
-		if s, ok := n.(*ast.SwitchStmt); ok && s.Tag != nil && sw == nil {
-			if t := info.TypeOf(s.Tag); t != nil && strings.HasSuffix(t.String(), "GlyphOpType") {
-				sw = s
-			}
-		}
-		return true
-	})
-	if sw == nil {
-		c.fail("NUM-POS", fname, "path command switch", fd.Pos(), "switch over the glyph command type not found")
+	// One pass of the command loop of encodeCharString is evaluated on the SSA form for every
+	// command kind and every choice of its short forms (horizontal, vertical, general).  The
+	// fraction encoder is opaque: it is asked for a delta and answers with the value it really
+	// wrote (e1, e2, …).  Every delta must be "target − (tracked position + what was written
+	// before for that axis)", and the tracked position must advance by exactly what was written.
+	fn := c.method("type1", "Glyph", "encodeCharString")
+	fname := c.fname(fn)
+	H := cmdLoopHeader(fn)
+	if H == nil {
+		c.undecided("NUM-POS", fname, "loop over the path commands", fn.Pos(), "no loop over g.Cmds found")
 		return
 	}
-	// position variables: float64 locals initialised with 0 before the loop, updated with +=
-	posVars := map[types.Object]string{}
-	ast.Inspect(fd.Body, func(n ast.Node) bool {
-		if as, ok := n.(*ast.AssignStmt); ok && as.Tok == token.DEFINE && len(as.Lhs) == 1 && as.Pos() < sw.Pos() {
-			if id, ok := as.Lhs[0].(*ast.Ident); ok {
-				if bt, ok := info.TypeOf(id).Underlying().(*types.Basic); ok && bt.Kind() == types.Float64 {
-					if v, ok := constOf(info, as.Rhs[0]); ok && v.String() == "0" {
-						posVars[info.ObjectOf(id)] = ""
+	numFn := c.fn("type1", "appendNumber")
+	ops := map[string]int64{"OpMoveTo": c.constInt("type1", "OpMoveTo"), "OpLineTo": c.constInt("type1", "OpLineTo"), "OpCurveTo": c.constInt("type1", "OpCurveTo"), "OpClosePath": c.constInt("type1", "OpClosePath")}
+	type cell struct {
+		op    string
+		shape string   // general | horizontal | vertical | hv | vh
+		small []string // linear forms whose absolute value is below the threshold
+	}
+	cells := []cell{
+		{"OpMoveTo", "general", nil}, {"OpMoveTo", "horizontal", []string{"A1-PY"}}, {"OpMoveTo", "vertical", []string{"A0-PX"}},
+		{"OpLineTo", "general", nil}, {"OpLineTo", "horizontal", []string{"A1-PY"}}, {"OpLineTo", "vertical", []string{"A0-PX"}},
+		{"OpCurveTo", "general", nil}, {"OpCurveTo", "hv", []string{"A1-PY", "A4-A2"}}, {"OpCurveTo", "vh", []string{"A0-PX", "A5-A3"}},
+		{"OpClosePath", "general", nil},
+	}
+	n := 0
+	for _, cl := range cells {
+		n++
+		ev := &ssaEval{c: c, bind: map[ssa.Value]sv{}, mem: map[string]sv{}}
+		type req struct {
+			delta sv
+			e     string
+		}
+		var reqs []req
+		ev.noInline = func(f *ssa.Function) bool { return f == numFn || (f.Signature.Recv() == nil && f.Signature.Params().Len() == 2 && f.Signature.Results().Len() == 1) }
+		ev.load = func(ld *ssa.UnOp, addr sv) (sv, bool) {
+			a := addr.s
+			switch {
+			case strings.HasSuffix(a, ".Op"):
+				return intV(ops[cl.op]), true
+			case strings.Contains(a, ".Args["):
+				i := strings.LastIndex(a, "[")
+				return symV("A" + strings.TrimSuffix(a[i+1:], "]")), true
+			case strings.HasSuffix(a, ".Args"):
+				return sv{k: svAddr, s: "cmd.Args"}, true
+			}
+			return symV("v:" + a), true
+		}
+		ev.call = func(call ssa.CallInstruction, args []sv) (sv, bool) {
+			if call == nil {
+				return sv{}, false
+			}
+			switch {
+			case call.Common().StaticCallee() == numFn && len(args) == 2:
+				e := fmt.Sprintf("e%d", len(reqs)+1)
+				reqs = append(reqs, req{args[1], e})
+				return sv{k: svTuple, tup: []sv{symV("buf"), symV(e)}}, true
+			case callName(call) == "math.Abs" && len(args) == 1:
+				return symV("abs:" + linString(linOf(args[0]))), true
+			}
+			if sc := call.Common().StaticCallee(); sc != nil && c.inModule(sc) && ev.noInline(sc) {
+				return symV("buf"), true
+			}
+			return sv{}, false
+		}
+		ev.oracle = func(op token.Token, x, y sv) (bool, bool) {
+			if strings.HasPrefix(x.s, "abs:") && y.k == svFloat {
+				small := false
+				for _, s := range cl.small {
+					if x.s == "abs:"+s {
+						small = true
 					}
+				}
+				switch op {
+				case token.LSS, token.LEQ:
+					return small, true
+				case token.GTR, token.GEQ:
+					return !small, true
+				}
+			}
+			if strings.Contains(x.String(), "idx") || strings.Contains(y.String(), "idx") {
+				return true, true
+			}
+			return false, false
+		}
+		fr := &frame{vals: map[ssa.Value]sv{}}
+		// the loop goes on: its condition is fixed to the value that enters the body
+		if ifi, ok := H.Instrs[len(H.Instrs)-1].(*ssa.If); ok {
+			ev.bind[ifi.Cond] = boolV(reachesBlock(H.Succs[0], H))
+		}
+		// header phis: the two tracked coordinates (floats), the buffer, the range index
+		var floats []*ssa.Phi
+		for _, ins := range H.Instrs {
+			if phi, ok := ins.(*ssa.Phi); ok {
+				switch t := phi.Type().Underlying().(type) {
+				case *types.Basic:
+					switch {
+					case t.Info()&types.IsFloat != 0:
+						floats = append(floats, phi)
+					case t.Info()&types.IsInteger != 0:
+						fr.vals[phi] = symV("idx")
+					}
+				default:
+					fr.vals[phi] = symV("buf")
 				}
 			}
 		}
-		return true
-	})
-	if len(posVars) != 2 {
-		c.fail("NUM-POS", fname, "tracked position", fd.Pos(), fmt.Sprintf("expected two tracked position variables initialised with 0, found %d", len(posVars)))
-		return
-	}
-	// assign axes by order of declaration: first x, second y
-	var objs []types.Object
-	for o := range posVars {
-		objs = append(objs, o)
-	}
-	sort.Slice(objs, func(i, j int) bool { return objs[i].Pos() < objs[j].Pos() })
-	posVars[objs[0]], posVars[objs[1]] = "x", "y"
-
-	nBranches := 0
-	// every straight-line branch inside the switch: a BlockStmt whose statements contain appendNumber calls
-	var visit func(list []ast.Stmt)
-	visit = func(list []ast.Stmt) {
-		type delta struct {
-			v    types.Object
-			axis string
-			expr string
+		// which float is x and which y is decided by how they are used (below): try both
+		construct := fmt.Sprintf("%s (%s): deltas relative to the tracked position, position advanced by what was written", cl.op, cl.shape)
+		var tracked []*ssa.Phi
+		for _, phi := range floats {
+			// a tracked coordinate is re-assigned from itself plus something on the back edge
+			tracked = append(tracked, phi)
 		}
-		var deltas []delta
-		added := map[types.Object]int{}
+		if len(tracked) < 2 {
+			c.undecided("NUM-POS", fname, construct, fn.Pos(), "the two tracked coordinates were not found among the values carried by the loop")
+			continue
+		}
+		okCell := false
 		var problems []string
-		has := false
-		for _, st := range list {
-			switch st := st.(type) {
-			case *ast.IfStmt:
-				// descend into all arms
-				var arms func(s ast.Stmt)
-				arms = func(s ast.Stmt) {
-					switch s := s.(type) {
-					case *ast.IfStmt:
-						visit(s.Body.List)
-						if s.Else != nil {
-							arms(s.Else)
-						}
-					case *ast.BlockStmt:
-						visit(s.List)
+		for _, assign := range [][2]int{{0, 1}, {1, 0}} {
+			if len(tracked) > 2 {
+				// other floats carried by the loop are scratch variables
+			}
+			for _, phi := range tracked {
+				fr.vals[phi] = symV("scratch")
+			}
+			px, py := tracked[assign[0]], tracked[assign[1]]
+			// with more than two floats, try the first two in declaration order and the pairs
+			fr.vals[px], fr.vals[py] = symV("PX"), symV("PY")
+			reqs = nil
+			ev.effects, ev.why, ev.steps = nil, "", 0
+			var from *ssa.BasicBlock
+			back := false
+			_, from, _ = ev.runBlocks(fr, H, nil, func(next, f *ssa.BasicBlock) bool {
+				if next == H {
+					back = true
+				}
+				return next == H
+			})
+			if !back {
+				problems = []string{"the pass does not come back to the loop: " + ev.why}
+				continue
+			}
+			newOf := func(phi *ssa.Phi) sv {
+				for i, p := range H.Preds {
+					if p == from {
+						return ev.val(fr, phi.Edges[i])
 					}
 				}
-				arms(st)
-			case *ast.AssignStmt:
-				// buf, V = appendNumber(buf, E)
-				if len(st.Rhs) == 1 && len(st.Lhs) == 2 {
-					if call, ok := st.Rhs[0].(*ast.CallExpr); ok {
-						if id, ok := call.Fun.(*ast.Ident); ok && id.Name == "appendNumber" && len(call.Args) == 2 {
-							has = true
-							vid, _ := st.Lhs[1].(*ast.Ident)
-							if vid == nil || vid.Name == "_" {
-								problems = append(problems, "the value actually encoded for `"+types.ExprString(call.Args[1])+"` is discarded ("+c.pos(st.Pos())+")")
-								continue
-							}
-							// axis: which position variable and which argument parity
-							axis := ""
-							e := call.Args[1]
-							usesPos := map[string]bool{}
-							parity := map[int64]bool{}
-							ast.Inspect(e, func(n ast.Node) bool {
-								switch n := n.(type) {
-								case *ast.Ident:
-									if a, ok := posVars[info.ObjectOf(n)]; ok {
-										usesPos[a] = true
-									}
-								case *ast.IndexExpr:
-									if k, ok := constIntOf(info, n.Index); ok {
-										parity[k%2] = true
-									}
-								}
-								return true
-							})
-							switch {
-							case usesPos["x"] && !usesPos["y"] && parity[0] && !parity[1]:
-								axis = "x"
-							case usesPos["y"] && !usesPos["x"] && parity[1] && !parity[0]:
-								axis = "y"
-							default:
-								problems = append(problems, "the delta `"+types.ExprString(e)+"` is not requested relative to the tracked position on one axis ("+c.pos(st.Pos())+")")
-							}
-							// must subtract the tracked position plus the earlier deltas of the same axis in this command
-							be, isSub := e.(*ast.BinaryExpr)
-							if !isSub || be.Op != token.SUB {
-								problems = append(problems, "the delta `"+types.ExprString(e)+"` is not a difference to the tracked position")
-							}
-							deltas = append(deltas, delta{info.ObjectOf(vid), axis, types.ExprString(e)})
-						}
+				return sv{}
+			}
+			problems = nil
+			axisSum := map[string][]string{}
+			for i, r := range reqs {
+				l := linOf(r.delta)
+				axis := ""
+				if l["PX"] == -1 && l["PY"] == 0 {
+					axis = "PX"
+				}
+				if l["PY"] == -1 && l["PX"] == 0 {
+					axis = "PY"
+				}
+				if axis == "" {
+					problems = append(problems, fmt.Sprintf("delta %d (%s) is not relative to one tracked coordinate", i+1, linString(l)))
+					continue
+				}
+				targets := 0
+				for k, v := range l {
+					switch {
+					case strings.HasPrefix(k, "A") && v == 1:
+						targets++
+					case k == axis:
+					case strings.HasPrefix(k, "e") && v == -1:
+					default:
+						problems = append(problems, fmt.Sprintf("delta %d (%s) contains the stray term %s", i+1, linString(l), k))
 					}
 				}
-				// position updates
-				if len(st.Lhs) == 1 || st.Tok == token.ASSIGN && len(st.Lhs) == len(st.Rhs) {
-					for i, l := range st.Lhs {
-						lid, ok := l.(*ast.Ident)
-						if !ok {
-							continue
-						}
-						axis, isPos := posVars[info.ObjectOf(lid)]
-						if !isPos {
-							continue
-						}
-						has = true
-						if st.Tok != token.ADD_ASSIGN {
-							problems = append(problems, "the tracked position `"+lid.Name+"` is assigned (`"+types.ExprString(st.Rhs[i])+"`) instead of being advanced by the encoded deltas ("+c.pos(st.Pos())+"): rounding errors of fractional coordinates then accumulate along the path")
-							continue
-						}
-						// RHS: sum of delta variables of this axis
-						okSum := true
-						ast.Inspect(st.Rhs[i], func(n ast.Node) bool {
-							switch n := n.(type) {
-							case *ast.BinaryExpr:
-								if n.Op != token.ADD {
-									okSum = false
-								}
-							case *ast.Ident:
-								o := info.ObjectOf(n)
-								found := false
-								for _, d := range deltas {
-									if d.v == o {
-										found = true
-										if d.axis != axis {
-											problems = append(problems, "`"+lid.Name+"` is advanced by `"+n.Name+"`, a delta of the other axis ("+c.pos(st.Pos())+")")
-										}
-										added[o]++
-									}
-								}
-								if !found {
-									okSum = false
-								}
-							case *ast.ParenExpr, nil:
-							default:
-								okSum = false
-							}
-							return true
-						})
-						if !okSum {
-							problems = append(problems, "`"+lid.Name+" += "+types.ExprString(st.Rhs[i])+"` adds something other than values returned by appendNumber in this command ("+c.pos(st.Pos())+")")
-						}
+				if targets != 1 {
+					problems = append(problems, fmt.Sprintf("delta %d (%s) does not aim at one coordinate of the command", i+1, linString(l)))
+				}
+				for _, e := range axisSum[axis] {
+					if l[e] != -1 {
+						problems = append(problems, fmt.Sprintf("delta %d (%s) ignores the value %s already written for the same axis: rounding errors accumulate", i+1, linString(l), e))
 					}
+				}
+				axisSum[axis] = append(axisSum[axis], r.e)
+			}
+			for _, ax := range []struct {
+				name string
+				phi  *ssa.Phi
+			}{{"PX", px}, {"PY", py}} {
+				l := linOf(newOf(ax.phi))
+				want := map[string]float64{ax.name: 1}
+				for _, e := range axisSum[ax.name] {
+					want[e] = 1
+				}
+				if linString(l) != linString(want) {
+					problems = append(problems, fmt.Sprintf("the tracked %s becomes %s, expected %s (the position must advance by what was written, not by what was asked for)", ax.name, linString(l), linString(want)))
 				}
 			}
-		}
-		if !has {
-			return
-		}
-		for _, d := range deltas {
-			if d.axis != "" && added[d.v] != 1 {
-				problems = append(problems, fmt.Sprintf("the encoded delta `%s` (for %s) is added to the tracked position %d times, expected once", d.v.Name(), d.expr, added[d.v]))
+			if len(problems) == 0 {
+				okCell = true
+				break
 			}
 		}
-		if len(deltas) == 0 && len(problems) == 0 {
-			return
-		}
-		nBranches++
-		construct := "command branch emitting " + fmt.Sprint(len(deltas)) + " number(s)"
-		if len(problems) > 0 {
-			c.fail("NUM-POS", fname, construct, list[0].Pos(), "position tracking: "+strings.Join(problems, "; "))
-		} else {
-			c.ok("NUM-POS", fname, construct, list[0].Pos(), "every delta relative to the tracked position; position advanced by exactly the returned values", "")
-		}
-	}
-	for _, cc := range sw.Body.List {
-		visit(cc.(*ast.CaseClause).Body)
+		c.check(okCell, "NUM-POS", fname, construct, fn.Pos(), fmt.Sprintf("%d numbers written", len(reqs)), "position tracking: "+joinMax(problems, 3))
 	}
 	c.rep.Floors["NUM-POS"] = 8
+	_ = n
 	// exhaustiveness of the command switch: every GlyphOpType constant has a case (or default panics)
 	c.glyphOpSwitches()
+}
+
+// cmdLoopHeader: the header of the loop that ranges over the glyph's commands (the last loop of
+// the function).
+func cmdLoopHeader(fn *ssa.Function) *ssa.BasicBlock {
+	var h *ssa.BasicBlock
+	for _, b := range fn.Blocks {
+		for _, p := range b.Preds {
+			if b.Dominates(p) {
+				// outermost loops only: not nested in another candidate
+				nested := false
+				if h != nil && h.Dominates(b) {
+					for _, q := range h.Preds {
+						if h.Dominates(q) && b.Dominates(q) == false && reachesBlock(b, q) {
+							nested = true
+						}
+					}
+				}
+				if !nested {
+					h = b
+				}
+			}
+		}
+	}
+	return h
+}
+
+func reachesBlock(from, to *ssa.BasicBlock) bool {
+	seen := map[*ssa.BasicBlock]bool{}
+	st := []*ssa.BasicBlock{from}
+	for len(st) > 0 {
+		b := st[len(st)-1]
+		st = st[:len(st)-1]
+		if b == to {
+			return true
+		}
+		if seen[b] {
+			continue
+		}
+		seen[b] = true
+		st = append(st, b.Succs...)
+	}
+	return false
+}
+
+// linOf reads a term built from + and − as a linear combination of its atoms.
+func linOf(v sv) map[string]float64 {
+	out := map[string]float64{}
+	var walk func(v sv, f float64)
+	walk = func(v sv, f float64) {
+		switch {
+		case v.k == svSym && (v.op == "+" || v.op == "-") && len(v.args) == 2:
+			walk(v.args[0], f)
+			if v.op == "+" {
+				walk(v.args[1], f)
+			} else {
+				walk(v.args[1], -f)
+			}
+		case v.k == svSym && v.op == "neg" && len(v.args) == 1:
+			walk(v.args[0], -f)
+		case v.k == svFloat:
+			if v.f != 0 {
+				out["1"] += f * v.f
+			}
+		case v.k == svInt:
+			if v.i != 0 {
+				out["1"] += f * float64(v.i)
+			}
+		default:
+			out[v.String()] += f
+		}
+	}
+	walk(v, 1)
+	for k, c := range out {
+		if c == 0 {
+			delete(out, k)
+		}
+	}
+	return out
+}
+
+func linString(l map[string]float64) string {
+	var ks []string
+	for k := range l {
+		ks = append(ks, k)
+	}
+	sort.Strings(ks)
+	var pos, neg []string
+	for _, k := range ks {
+		switch l[k] {
+		case 1:
+			pos = append(pos, k)
+		case -1:
+			neg = append(neg, k)
+		default:
+			pos = append(pos, fmt.Sprintf("%g*%s", l[k], k))
+		}
+	}
+	s := strings.Join(pos, "+")
+	for _, k := range neg {
+		s += "-" + k
+	}
+	return s
 }
 
 func (c *Ctx) decoderDiv(info *types.Info, decFD *ast.FuncDecl) {
